@@ -264,12 +264,27 @@ class C02(Prop):
                 tls = dict(tls, record=total // 4000 + 1)
         ref = run_stream(reply, data, "whole", deflate, reactions, tls={"record": 1 << 20} if tls else None)
         alt = run_stream(reply, data, seg, deflate, reactions, tls=tls)
-        for tr, which in ((ref, "whole"), (alt, "segmented")):
+        runs = [(ref, "whole"), (alt, "segmented")]
+        if built is not None and not case.get("edits") and not tls:
+            # a third delivery: one read per frame (the reply, then every frame ends a read; frames beyond the 64 KiB
+            # read size still take several reads).  Two deliveries that both put a frame boundary INSIDE a read can be
+            # wrong in the same way; this one never does.
+            ends = sorted({reply_len} | {reply_len + e for s_, e, what in built.regions if what in ("payload", "header")})
+            frame_ends = [e for i, e in enumerate(ends)
+                          if not any(what == "payload" and reply_len + s_ == e for s_, _e, what in built.regions)]
+            aligned = run_stream(reply, data, ["cuts", frame_ends], deflate, reactions)
+            runs.append((aligned, "one frame per read"))
+            labels.add("third_delivery_frame_aligned")
+        for tr, which in runs:
             if tr.hang:
                 return failed("hang", "%s run: %s" % (which, tr.hang), labels, nontrivial)
             if tr.escaped:
                 return failed("escaped_exception", "%s run: %s" % (which, tr.escaped), labels, nontrivial)
         why = diff(observe(ref), observe(alt))
+        if not why and len(runs) > 2:
+            why = diff(observe(ref), observe(runs[2][0]))
+            if why:
+                why = "whole reads vs one frame per read: " + why
         if why:
             return failed("segmentation_dependent", why, labels, nontrivial)
         return held(labels, nontrivial)
